@@ -503,10 +503,28 @@ func K14() *Entry {
 	return &Entry{Name: "k14", File: f, Cfg: c, Tags: []string{"depth6", "embed?", "oneof-nested"}}
 }
 
+// K15: selected messages whose shape resembles something the generator treats specially:
+// an `...Entry` message with fields key / value (like a synthetic map entry, but a real message),
+// the same message used as a list element and as a map value, well-known-looking names.
+func K15() *Entry {
+	entry := M("LabelEntry", F("key"), F("value"))
+	pair := M("PairEntry", F("key"), F("value", MsgT("LabelEntry")))
+	any := M("Any", F("TypeUrl"), F("Payload", Sc(ir.Bytes)))
+	holder := M("Shelf", F("Title"), F("Labels", MapOf()), F("Entries", MsgT("LabelEntry"), Rep()), F("ByName", MsgT("PairEntry"), MapOf()), F("Extra", MsgT("Any")))
+	// a selected type all of whose declared fields are excluded: its schema consists of injected fields
+	gamma := M("Gamma", F("Secret"), F("Token"))
+	f := file("k15", holder, entry, pair, any, gamma)
+	AutoComments(f)
+	c := BaseConfig("Shelf", "LabelEntry", "PairEntry", "Any", "Gamma")
+	c.ExcludeFields = []string{"Gamma.Secret", "Gamma.Token"}
+	c.InjectedFields = map[string][]ir.Injected{"Gamma": {{Name: "injected_id", Type: "github.com/hashicorp/terraform-plugin-framework/types.StringType", Computed: true}}}
+	return &Entry{Name: "k15", File: f, Cfg: c, Tags: []string{"entry-shaped-message", "all-fields-excluded"}}
+}
+
 // Curated returns the curated corpus. known=true adds the isolated shapes that
 // are known not to compile on the pinned tree (D1, D2).
 func Curated() []*Entry {
-	return []*Entry{K1(), K2(), K3(), K4(), K5(), K6(0), K6(1), K6(2), K6(3), K6(4), K7(), K7X(), K8(), K9(), K10(false), K10(true), K12(), K13(), K14()}
+	return []*Entry{K1(), K2(), K3(), K4(), K5(), K6(0), K6(1), K6(2), K6(3), K6(4), K7(), K7X(), K8(), K9(), K10(false), K10(true), K12(), K13(), K14(), K15()}
 }
 
 // Exotic returns the isolated shapes (K11).
